@@ -60,6 +60,22 @@ func (f *Same) Call(s *slip.Scope, args slip.List, depth int) slip.Object {
 }
 
 func same(x, y slip.Object) slip.Object {
+	// A real equals a complex only if the imaginary part is zero and the
+	// real parts have the same value, compared exactly instead of rounding
+	// the real to a double-float.
+	if cx, ok := x.(slip.Complex); ok {
+		if _, ok = y.(slip.Complex); !ok {
+			if imag(cx) != 0.0 || same(slip.DoubleFloat(real(cx)), y) == nil {
+				return nil
+			}
+			return y
+		}
+	} else if cy, ok := y.(slip.Complex); ok {
+		if imag(cy) != 0.0 || same(x, slip.DoubleFloat(real(cy))) == nil {
+			return nil
+		}
+		return y
+	}
 	x, y = normalizeReals(x, y)
 	switch tx := x.(type) {
 	case slip.Fixnum:
